@@ -170,5 +170,31 @@ def emerging (x : Nat → Nat → α) (i v : Nat) : α :=
   cvMulMat S.rbotAir S.idown i v
     + cvMulMat (S.lay 0).ttop ⟨(S.lay 0).n * S.npol, S.nvec, i1up S x⟩ i v
 
+/-! ### the system in block form: one unknown vector per layer -/
+
+/-- left-hand side of the top rows of layer `l` for unknowns `x l j v` (layer, eigen-index, column) -/
+def lhsTop (x : Nat → Nat → Nat → α) (l i v : Nat) : α :=
+  sumN (2 * ((S.lay l).n * S.npol)) (fun j => topBlock (S.lay l) i j * x l j v)
+    + (if 0 < l then
+        (if i < commonRows S (S.lay (l - 1)).tbot ((S.lay (l - 1)).n * S.npol) (S.lay l).n
+          then sumN (2 * ((S.lay (l - 1)).n * S.npol)) (fun j => downBlock (S.lay (l - 1)) i j * x (l - 1) j v) else 0)
+       else 0)
+
+/-- left-hand side of the bottom rows of layer `l` -/
+def lhsBot (x : Nat → Nat → Nat → α) (l i v : Nat) : α :=
+  sumN (2 * ((S.lay l).n * S.npol)) (fun j => botBlock (S.lay l) i j * x l j v)
+    + (if l + 1 < S.L then
+        (if i < commonRows S (S.lay (l + 1)).ttop ((S.lay (l + 1)).n * S.npol) (S.lay l).n
+          then sumN (2 * ((S.lay (l + 1)).n * S.npol)) (fun j => upBlock (S.lay (l + 1)) i j * x (l + 1) j v) else 0)
+       else 0)
+
+/-- `x` solves the boundary system (every row of every layer, every right-hand-side column) -/
+def Solves (x : Nat → Nat → Nat → α) : Prop :=
+  ∀ l, l < S.L → ∀ i, i < (S.lay l).n * S.npol → ∀ v,
+    lhsTop S x l i v = rhsTop S l i v ∧ lhsBot S x l i v = rhsBot S l i v
+
+/-- the emerging intensity from the unknowns of the top layer -/
+def emergingB (x : Nat → Nat → Nat → α) (i v : Nat) : α := emerging S (x 0) i v
+
 end
 end Smrt.Dort
